@@ -5,6 +5,10 @@ package cisco
 // Contracts for the deductive checker in /verif (comment-only file).
 
 //vc:func (*State).LoginEnable
+// the text is an answer / a shell command, not one of the two Cisco mode commands
+//vc:  hypothesis[C11] pass != "configure terminal" && pass != "end"
+//vc:  requires[C11] @notInConfMode !confMode
+//vc:  ensures[C11] @leavesConfMode !confMode
 //vc:  requires[C11] !isCompareRun || pass == loginPass
 //vc:  ensures[C06] markerMissing ==> len(s.errUnmanaged) > 0
 //vc:  ensures[C09] @unmanagedErrorNotNil isnil(old(s.errUnmanaged)) && !isnil(s.errUnmanaged) ==> len(s.errUnmanaged) > 0 && s.errUnmanaged[0] != nil
@@ -79,3 +83,40 @@ package cisco
 //vc:  ensures[C18] @appendBlockInserted len(appendACL) > 0 ==> len(ab.a.lookup[prefix][name]) == mergeLen + len(appendACL) && (forall j int :: mergeI <= j && j < mergeI + len(appendACL) ==> ab.a.lookup[prefix][name][j] == appendACL[j - mergeI])
 //vc:  ensures[C18,slow] @restKeptBehindAppend len(appendACL) > 0 ==> (forall j int :: mergeI + len(appendACL) <= j && j < len(ab.a.lookup[prefix][name]) ==> !strings.Contains(ab.a.lookup[prefix][name][j].parsed, "$NAME extended permit"))
 //vc:  ensures[C18,slow] @prependFirst (forall j int :: 0 <= j && j < len(prependACL) && (len(appendACL) == 0 || j < mergeI) ==> ab.a.lookup[prefix][name][j] == prependACL[j])
+
+// ---- C02: numbering kernel of the IOS ACL diff ----
+// After `ip access-list resequence NAME 10000 10000` device line k (0-based)
+// carries sequence number (k+1)*10000. A line inserted before position
+// `before` as the i-th of its run gets number before*10000+i+1: strictly
+// between its neighbours, and in run order.
+//vc:lemma[C02] insertLandsBetweenNeighbours: forall before int, i int :: 0 <= i && i < 9999 ==> before*10000 < before*10000 + i + 1 && before*10000 + i + 1 < (before + 1)*10000
+//vc:lemma[C02] insertKeepsRunOrder: forall before int, i int, j int :: 0 <= i && i < j ==> before*10000 + i + 1 < before*10000 + j + 1
+
+// addACL
+//vc:func (*State).diffIOSACLs$1
+//vc:  requires[C02] @insertIndexBelowStep 0 <= i && i < 9999 && 0 <= before
+//vc:  assert[C02] at "s.addCmds([]*cmd{b})" @numberedBetweenNeighbours b.parsed == strconv.Itoa(before*10000 + i + 1) + " " + old(b.parsed)
+// delACL
+//vc:func (*State).diffIOSACLs$2
+//vc:  assert[C02] at "s.delCmds([]*cmd{a.cmd})" @deletedByOwnNumber a.cmd.orig == strconv.Itoa((a.pos + 1)*10000)
+// moveACL: a move is suppressed only inside a uniform run and only next to
+// the block the line already belongs to
+//vc:ghost var moveEmitted bool
+//vc:func (*State).diffIOSACLs$3
+//vc:  requires[C02] @insertIndexBelowStep 0 <= i && i < 9999 && 0 <= before
+//vc:  init moveEmitted = false
+//vc:  assign after "addACL(b, before, i)" moveEmitted = true
+//vc:  ensures[C02] @suppressedOnlyNextToOwnBlock !moveEmitted ==> moveOK && ((before > 0 && idx2Block[before - 1] == idx2Block[a.pos]) || (before < len(idx2Block) && idx2Block[before] == idx2Block[a.pos]))
+
+// runUniform: specification state of the current insert run - every line read
+// so far has the action of the first one (actions are read before the line is
+// renumbered).
+//vc:ghost var runUniform bool
+//vc:func (*State).diffIOSACLs
+//vc:  hypothesis[C02] forall k int :: { diff[k] } 0 <= k && k < len(diff) ==> 0 <= diff[k].LowA && diff[k].LowA <= diff[k].HighA && diff[k].HighA <= len(al) && 0 <= diff[k].LowB && diff[k].LowB <= diff[k].HighB && diff[k].HighB <= len(bl)
+//vc:  hypothesis[C02] len(al) > 0 && al[0] != nil && al[0].subCmdOf != nil
+//vc:  assert[C02] at "del = append(del, &cmdPos)" @deleteEntryRecordsOwnLine cmdPos.cmd == a && cmdPos.pos == r.LowA + i && 0 <= cmdPos.pos && cmdPos.pos < len(al) && al[cmdPos.pos] == a
+//vc:  assign at "action0 := getIOSAction(bl[r.LowB])" runUniform = true
+//vc:  assign at "action0 == getIOSAction(b)" runUniform = runUniform && strings.Cut(b.parsed, " ") == action0
+//vc:  invariant[C02] 6 "for i, b := range bl[r.LowB:r.HighB]" @moveOKMeansUniformRun -1 <= rangeindex && moveOK == runUniform
+//vc:  assert[C02] at "moveACL(cmdPos, b, r.LowA, i, moveOK)" @moveSuppressibleOnlyInUniformRun moveOK ==> runUniform
